@@ -130,7 +130,7 @@ func Canonical(yaml map[string]any, ignoreParseError bool) (map[string]any, erro
 ''', '', "configs of included files dropped (A10)"),
  ("C06", "envfile-wins", "K", "loader/include.go", '''			Environment: environment.Clone().Merge(envFromFile),''', '''			Environment: types.Mapping(envFromFile).Merge(environment),''', "env file values override the parent environment (INC-4)"),
  ("C06", "no-cycle-check", "K", "loader/include.go",
-  '''						if f == path {''', '''						if f == r.ProjectDirectory {''', "include chain compared with the wrong value: cycles not detected (CYC)"),
+  '''					if f == path {''', '''					if f == r.ProjectDirectory {''', "include chain compared with the wrong value: cycles not detected (CYC)"),
  ("C07", "wrong-binding", "K", "template/template.go", '''		{":-", defaultWhenEmptyOrUnset},''', '''		{":-", defaultWhenUnset},''', "operator bound to the wrong function (TPL-1)"),
  ("C07", "value-reexpanded", "K", "template/template.go",
   '''	value, ok := mapping(substitution)
